@@ -537,7 +537,7 @@ func runHistory(c *run.Ctx, cfg childCfg, gi int) {
 	midnight := 0
 	unordered := 0
 	for o := 0; o < nops; o++ {
-		op := []string{"push", "push", "push-next-day", "fail-series+retry", "cache-reset", "push-midnight", "push-unordered-days", "fail-series-once"}[r.Intn(8)]
+		op := []string{"push", "push", "push-next-day", "fail-series+retry", "cache-reset", "push-midnight", "push-unordered-days", "fail-series-once", "big-push-first-series-fails"}[r.Intn(9)]
 		if o == 0 && gi%3 == 0 {
 			op = []string{"fail-series+retry", "fail-series-once"}[(gi/3)%2]
 		}
@@ -625,7 +625,20 @@ func runHistory(c *run.Ctx, cfg childCfg, gi int) {
 			hist = append(hist, p)
 			return p
 		}
-		if op == "fail-series-once" {
+		if op == "big-push-first-series-fails" {
+			// a body of several MiB with streams nobody has pushed before (one parser portion per stream): the series
+			// insert of the first portion fails on every attempt, those of the later portions succeed. The push may
+			// only be acknowledged if every stream's series row got in.
+			blc := gen.NewLogCase(r, gen.LogOpts{ID: fmt.Sprintf("hb%d-%d", gi, o), Proto: "loki-json-values", Streams: 3, MaxEntries: 3, BaseNs: tsFor(), Huge: true})
+			rq := gen.Render(r, "loki-json-values", blc)
+			failSeries = int32(cfg.Writer.RetryAttempts)
+			bp := &push{op: "push(series insert of the first portion fails)", req: &rq, streams: blc.Streams}
+			bp.rec = gSess.Send(0, &rq)
+			failSeries = 0
+			hist = append(hist, bp)
+			c.Floor("multi-portion pushes whose first series insert fails", 0, 1)
+			c.Cover("history-events", fmt.Sprintf("multi-portion push, first series insert fails: answered %dxx", bp.rec.Status/100), 1)
+		} else if op == "fail-series-once" {
 			// only the first attempt of the series insert fails: the writer's own retry of the same request has to
 			// bring the row in before the push is acknowledged
 			failSeries = 1
